@@ -11,11 +11,12 @@ def main():
     os.makedirs(outdir, exist_ok=True)
     sys.path.insert(0, os.path.dirname(os.path.abspath(__file__)))
     import consts
-    txt = consts.generate(repo)
-    path = os.path.join(outdir, "Consts.lean")
-    old = open(path).read() if os.path.exists(path) else None
-    if old != txt:
-        open(path, "w").write(txt)
+    import interval
+    for name, txt in (("Consts.lean", consts.generate(repo)), ("Interval.lean", interval.generate(repo))):
+        path = os.path.join(outdir, name)
+        old = open(path).read() if os.path.exists(path) else None
+        if old != txt:
+            open(path, "w").write(txt)
     return 0
 
 
